@@ -1,4 +1,5 @@
 import Nsq.Proofs.RegistryProto
+import Nsq.Proofs.RegistryAdmin
 import Nsq.Tie.Registry
 import Nsq.Tie.RegistryProto
 /-!
@@ -15,7 +16,7 @@ words, route table) and by the hostile-stream / HTTP-sweep correspondence of har
 -/
 namespace Nsq.Props.C15
 open Nsq.Model.Registry Nsq.Model.Registry.AMap Nsq.Model.RegistryProto Nsq.Proofs.RegistryProto
-open Nsq.Spec.RegistrySpec
+open Nsq.Spec.RegistrySpec Nsq.Proofs.RegistryDB Nsq.Proofs.RegistryRefine Nsq.Proofs.RegistryMap Nsq.Proofs.RegistryAdmin
 
 /-- "No byte sequence on the TCP port can crash nsqlookupd", for a given shape of IDENTIFY. -/
 def lookup_no_panic_stmt (v : Variant) : Prop :=
@@ -151,11 +152,6 @@ theorem register_before_identify_rejected (r : Registry) (p : Nat) (params : Lis
     (∃ m, register r p params = (r, .err .invalid m)) ∧ (∃ m, unregister r p params = (r, .err .invalid m)) := by
   unfold register unregister; simp [hi]
 
-/-- A second IDENTIFY is refused; the connection is closed and its registrations are gone. -/
-theorem reidentify_rejected (r : Registry) (p : Nat) (info : Info) (now : Int) (hi : identifiedB r p = true) :
-    ∃ m, identify r p info now = (disconnect r p, .err .invalid m) := by
-  unfold identify; simp [hi]
-
 /-- Invalid names are refused (TCP: `E_BAD_TOPIC` / `E_BAD_CHANNEL`, HTTP: 400) — including
 names of 65 bytes and `#ephemeral` alone. -/
 theorem invalid_names_refused (r : Registry) (p : Nat) (t ch : Name) (rest : List Name)
@@ -173,10 +169,19 @@ example : validName (List.replicate 65 110) = false ∧ validName (List.replicat
     validName ephSuffix = false ∧ validName ([97] ++ ephSuffix) = true ∧ validName [] = false ∧
     validName [97, 32, 98] = false ∧ validName star = false := by decide
 
-/-- Isolation: whatever bytes connection `p` sends, on whatever registry, every entry whose
-peer is another connection `q` is unchanged — its producer entries under every key (hence its
-topics, channels, tombstones; the key of an entry it holds cannot be garbage-collected) and
-its peer record (last ping, identity). -/
+/-- Isolation, PER TCP CONNECTION and for handler calls that do not overlap: whatever bytes connection `p`
+sends, on whatever registry, every entry whose peer is another connection `q` is unchanged — its producer entries
+under every key (hence its topics, channels, tombstones; the key of an entry it holds cannot be
+garbage-collected) and its peer record (last ping, identity).
+Scope (audit C28e, C12): (1) `handleW` runs the whole stream of `p` as ONE sequential run; in the daemon each
+`RegistrationDB` method is its own critical section and `UNREGISTER topic` is several
+(`FindRegistrations`, one `RemoveProducer` per channel, `RemoveProducerAndPrune`; lookup_protocol_v1.go:180-191),
+so steps of other connections can fall in between. Every one of these sections removes only `p`'s own entry
+(`frame_unregister` is proved section-wise from `getP_removeProducer` / `getP_removeAndGC`, which hold for each
+section on any intermediate DB), so the frame property is preserved by every interleaving of sections; the
+statement about interleavings of whole handlers is `Nsq.Props.C14`, section "Concurrency". (2) The HTTP admin API
+is outside this theorem: it is the operator's interface and acts on everybody's registrations — see
+`admin_call_touches_only`. -/
 theorem tcp_isolation (v : Variant) (decode : List UInt8 → Option Info) (wf : Nat → Bool) (r : Registry) (p : Nat)
     (now : Int) (inp : List UInt8) (q : Nat) (hq : q ≠ p) :
     let r' := (handleW v decode wf r p now inp).reg
@@ -217,74 +222,327 @@ example :
     res.fin = .fatal ∧ res.replies.length = 4 ∧ qTopics res.reg = [[101] ++ ephSuffix] ∧
       qChannels res.reg ([101] ++ ephSuffix) = [[100] ++ ephSuffix] := by decide
 
-/-- HTTP: a request that is not answered 200 changes nothing (unknown path 404, wrong method
-405, malformed query / missing / invalid argument 400, unknown channel 404), and the model
-never answers 5xx. -/
+/-- HTTP, every method and EVERY path string (canonical or not), every argument combination: whatever the daemon
+is allowed to answer (`httpOutcomes`: one answer, or a set for the `net/http/pprof` rows), an answer other than
+200 changes nothing — unknown path 404, wrong method 405, a path that only matches after cleaning / case folding /
+trailing-slash repair 301 (GET) or 307 (other methods, httprouter's redirects), malformed query / missing /
+invalid argument 400, unknown channel 404 — and the only 5xx is the documented pprof-busy case: `GET
+/debug/pprof/profile` answers 500 while another CPU profile is running. -/
 theorem http_malformed_noop (c : Conf) (r : Registry) (method path : String) (a : HttpArgs) (now : Int) :
-    ((httpStep c r method path a now).2 ≠ 200 → (httpStep c r method path a now).1 = r) ∧
-    (httpStep c r method path a now).2 ∈ [200, 400, 404, 405] := by
-  unfold httpStep
-  have st : ∀ o : HttpOut, o.status ≠ 200 → o ≠ .ok := status_ne_200
-  have e400 : ∀ m, (HttpOut.err 400 m).status = 400 := fun _ => rfl
+    ∀ o ∈ httpOutcomes c r method path a now,
+      (o.2 ≠ 200 → o.1 = r) ∧
+      (o.2 ∈ [200, 301, 307, 400, 404, 405] ∨ (o.2 = 500 ∧ path = "/debug/pprof/profile")) := by
+  intro o ho
+  unfold httpOutcomes at ho
+  split at ho
+  · simp only [List.mem_map] at ho
+    obtain ⟨st, hst, rfl⟩ := ho
+    refine ⟨fun _ => rfl, ?_⟩
+    unfold pprofStatuses at hst
+    split at hst
+    · rename_i hp
+      simp only [List.mem_cons, List.not_mem_nil, or_false] at hst
+      rcases hst with rfl | rfl
+      · left; simp
+      · right; exact ⟨rfl, hp⟩
+    · split at hst <;> (left; simp only [List.mem_cons, List.not_mem_nil, or_false] at hst ⊢; omega)
+  · simp only [List.mem_singleton] at ho
+    subst ho
+    exact ⟨(httpStep_noop c r method path a now).1, Or.inl (httpStep_noop c r method path a now).2⟩
+
+/-- the answer the driver replays (`httpStep`) is one of the allowed ones -/
+theorem http_step_allowed (c : Conf) (r : Registry) (method path : String) (a : HttpArgs) (now : Int) :
+    httpStep c r method path a now ∈ httpOutcomes c r method path a now := by
+  unfold httpOutcomes
   split
-  · exact ⟨fun _ => rfl, by simp⟩
-  · exact ⟨fun _ => rfl, by simp⟩
-  · exact ⟨fun _ => rfl, by simp⟩
-  · refine ⟨fun h => createTopic_noop r a (st _ h), ?_⟩
-    unfold createTopic; split <;> (try split) <;> (try split) <;> simp [HttpOut.status]
-  · refine ⟨fun h => deleteTopic_noop r a (st _ h), ?_⟩
-    unfold deleteTopic; split <;> (try split) <;> simp [HttpOut.status]
-  · refine ⟨fun h => createChannel_noop r a (st _ h), ?_⟩
-    unfold createChannel
-    split
-    · simp [HttpOut.status]
-    · split
-      · rename_i e hg
-        unfold getTopicChannelArgs at hg
-        split at hg
-        · simp only [Except.error.injEq] at hg; rw [← hg]; simp [HttpOut.status]
-        · split at hg
-          · simp only [Except.error.injEq] at hg; rw [← hg]; simp [HttpOut.status]
-          · split at hg
-            · simp only [Except.error.injEq] at hg; rw [← hg]; simp [HttpOut.status]
-            · split at hg
-              · simp only [Except.error.injEq] at hg; rw [← hg]; simp [HttpOut.status]
-              · simp at hg
-      · simp [HttpOut.status]
-  · refine ⟨fun h => deleteChannel_noop r a (st _ h), ?_⟩
-    unfold deleteChannel
-    split
-    · simp [HttpOut.status]
-    · split
-      · rename_i e hg
-        unfold getTopicChannelArgs at hg
-        split at hg
-        · simp only [Except.error.injEq] at hg; rw [← hg]; simp [HttpOut.status]
-        · split at hg
-          · simp only [Except.error.injEq] at hg; rw [← hg]; simp [HttpOut.status]
-          · split at hg
-            · simp only [Except.error.injEq] at hg; rw [← hg]; simp [HttpOut.status]
-            · split at hg
-              · simp only [Except.error.injEq] at hg; rw [← hg]; simp [HttpOut.status]
-              · simp at hg
-      · split <;> simp [HttpOut.status]
-  · refine ⟨fun h => tombstone_noop r a now (st _ h), ?_⟩
-    unfold tombstone; split <;> (try split) <;> (try split) <;> simp [HttpOut.status]
-  · split
-    · exact ⟨fun _ => rfl, by simp⟩
-    · split
-      · exact ⟨fun _ => rfl, by simp⟩
-      · split
-        · refine ⟨fun _ => rfl, ?_⟩; split <;> simp
-        · refine ⟨fun _ => rfl, ?_⟩; split <;> simp
-  · split
-    · exact ⟨fun _ => rfl, by simp⟩
-    · split <;> exact ⟨fun _ => rfl, by simp⟩
-  · exact ⟨fun _ => rfl, by simp⟩
+  · rename_i h
+    have : httpStep c r method path a now = (r, 200) := by unfold httpStep; rw [h]
+    rw [this]
+    simp only [List.mem_map]
+    refine ⟨200, ?_, rfl⟩
+    unfold pprofStatuses; split <;> (try split) <;> simp
+  · simp
+
+/-- A redirect is answered only for a path that is NOT registered for that method but is a registered path of the
+same method after `CleanPath`, ASCII lower-casing and adding/removing one trailing slash; it is 301 for GET and 307
+otherwise; a registered (method, path) pair always reaches its handler. -/
+theorem redirect_characterised (method path : String) :
+    (∀ code, route method path = .redirect code →
+      routes.find? (fun e => e.1 = method && e.2.1 = path) = none ∧ fixMatches routes method path = true ∧
+      path ≠ "/" ∧ code = (if method = "GET" then 301 else 307)) ∧
+    (∀ e, routes.find? (fun e => e.1 = method && e.2.1 = path) = some e → route method path = .found e.2.2) := by
+  refine ⟨?_, ?_⟩
+  · intro code h
+    unfold route at h
+    split at h
+    · simp at h
+    · rename_i hf
+      split at h
+      · rename_i hc
+        simp only [Bool.and_eq_true, ne_eq, decide_not, Bool.not_eq_true', decide_eq_false_iff_not] at hc
+        simp only [Route.redirect.injEq] at h
+        exact ⟨hf, hc.2, hc.1.2, h.symm⟩
+      · split at h
+        · split at h <;> simp at h
+        · split at h <;> simp at h
+  · intro e h
+    unfold route; rw [h]
+
+/-- non-vacuity: the path classes of audit item C11 -/
+example : route "GET" "/lookup/" = .redirect 301 ∧ route "GET" "/LOOKUP" = .redirect 301 ∧
+    route "GET" "//lookup" = .redirect 301 ∧ route "POST" "/topic/create/" = .redirect 307 ∧
+    route "GET" "/debug/pprof/" = .redirect 301 ∧ route "GET" "/a/../lookup/." = .redirect 301 ∧
+    route "OPTIONS" "*" = .options ∧ route "PUT" "/lookup/" = .notFound ∧ route "POST" "/LOOKUP" = .notFound ∧
+    route "GET" "/" = .notFound ∧ route "GET" "/Topic/Create" = .notFound ∧
+    cleanPath "/a/b/../c//./d/".toList = "/a/c/d/".toList := by decide
+
+example : httpOutcomes ⟨0, 0⟩ init "GET" "/debug/pprof/profile" ⟨false, none, none, none⟩ 0 = [(init, 200), (init, 500)] ∧
+    httpOutcomes ⟨0, 0⟩ init "GET" "/debug/pprof/heap" ⟨false, none, none, none⟩ 0 = [(init, 200), (init, 400)] ∧
+    httpOutcomes ⟨0, 0⟩ init "GET" "/lookup/" ⟨false, none, none, none⟩ 0 = [(init, 301)] := by decide
 
 /-- non-vacuity: the five kinds of answers of the route table -/
 example : route "GET" "/lookup" = .found .lookup ∧ route "POST" "/lookup" = .methodNotAllowed ∧
     route "OPTIONS" "/lookup" = .options ∧ route "GET" "/nope" = .notFound ∧
     route "POST" "/topic/tombstone" = .found .tombstone := by decide
+
+/-- (audit C28b) The error table is a CHARACTERISATION, not only a shape: whatever `Exec` answers to a command
+line, the error code of the answer (or its absence) is exactly the one `expectedErr` — the protocol's error table,
+spelled out condition by condition — names. A model that answers `OK` to everything does not satisfy this. -/
+theorem errors_characterised (decode : List UInt8 → Option Info) (r r' : Registry) (p : Nat) (now : Int)
+    (params : List Name) (rest rest' : List UInt8) (out : TcpOut)
+    (h : exec fixedV decode r p now params rest = .reply r' out rest') :
+    errCodeOf out = expectedErr decode r p params rest :=
+  exec_errCode decode r r' p now params rest rest' out h
+
+/-- … lifted to the byte stream (audit C28c): `inp` is ANY stream whose next line — as `ReadString('\n')`,
+`TrimSpace` and `Split(" ")` cut it — is `line`. If the table names an error for it, the connection ends right
+there: the error (with that code) is the last reply, the clean-up has run; if it names none, the command is
+answered with a success and the loop goes on with the bytes after it. -/
+theorem stream_line_characterised (decode : List UInt8 → Option Info) (wf : Nat → Bool) (p : Nat) (now : Int)
+    (fuel : Nat) (r : Registry) (inp : List UInt8) (acc : List (List UInt8)) (line rest : List UInt8)
+    (hl : readLine inp = some (line, rest)) :
+    match expectedErr decode r p (splitSp (trimSpace line)) rest with
+    | some code =>
+      (ioLoop fixedV decode wf p now (fuel + 1) r inp acc).fin = .fatal ∧
+      (wf acc.length = true → ∃ m, (ioLoop fixedV decode wf p now (fuel + 1) r inp acc).replies =
+        acc ++ [ascii (codeName code) ++ [32] ++ m]) ∧
+      ∃ r', (ioLoop fixedV decode wf p now (fuel + 1) r inp acc).reg = disconnect r' p
+    | none =>
+      ∃ r' out rest', exec fixedV decode r p now (splitSp (trimSpace line)) rest = .reply r' out rest' ∧
+        okReply (replyBytes out) ∧
+        (wf acc.length = true → ioLoop fixedV decode wf p now (fuel + 1) r inp acc =
+          ioLoop fixedV decode wf p now fuel r' rest' (acc ++ [replyBytes out])) := by
+  rw [ioLoop_line fixedV decode wf p now fuel r inp acc line rest hl]
+  cases hx : exec fixedV decode r p now (splitSp (trimSpace line)) rest with
+  | panic w => exact absurd hx (exec_fixed_no_panic decode r p now _ rest (splitSp_ne_nil _) w)
+  | reply r' out rest' =>
+    have hc := exec_errCode decode r r' p now _ rest rest' out hx
+    rw [← hc]
+    cases he : errCodeOf out with
+    | some code =>
+      obtain ⟨m, rfl⟩ := errCodeOf_some out code he
+      simp only [TcpOut.isErr, if_true]
+      refine ⟨?_, ?_, ?_⟩
+      · trivial
+      · intro hw
+        exact ⟨m, by simp [hw, replyBytes]⟩
+      · exact ⟨r', rfl⟩
+    | none =>
+      have hne := errCodeOf_none out he
+      refine ⟨r', out, rest', rfl, ?_, ?_⟩
+      · cases out with
+        | ok => exact Or.inl rfl
+        | identified => exact Or.inr rfl
+        | err c m => simp [TcpOut.isErr] at hne
+      · intro hw
+        simp [hne, hw]
+
+/-- non-vacuity, on bytes through `handle`: after a valid IDENTIFY (reply 1), `REGISTER bad$name` /
+`UNREGISTER t bad$name` / `REGISTER` alone end the connection with a second, last reply, and the table names
+`E_BAD_TOPIC` / `E_BAD_CHANNEL` / `E_INVALID` for exactly those lines; `REGISTER t` does not end it -/
+example :
+    let dec : List UInt8 → Option Info := fun _ => some ⟨[104], [110], [118], 1, 2⟩
+    let idf := magicV1 ++ cmdIDENTIFY ++ [10, 0, 0, 0, 1, 123]
+    let bad : List UInt8 := [98, 97, 100, 36, 110, 97, 109, 101]
+    let r1 := (identify init 1 ⟨[104], [110], [118], 1, 2⟩ 0).1
+    ((handle fixedV dec init 1 0 (idf ++ cmdREGISTER ++ [32] ++ bad ++ [10] ++ cmdPING ++ [10])).fin = .fatal ∧
+     (handle fixedV dec init 1 0 (idf ++ cmdREGISTER ++ [32] ++ bad ++ [10] ++ cmdPING ++ [10])).replies.length = 2 ∧
+     expectedErr dec r1 1 (splitSp (trimSpace (cmdREGISTER ++ [32] ++ bad ++ [10]))) (cmdPING ++ [10]) = some .badTopic) ∧
+    ((handle fixedV dec init 1 0 (idf ++ cmdUNREGISTER ++ [32, 116, 32] ++ bad ++ [10])).fin = .fatal ∧
+     expectedErr dec r1 1 (splitSp (trimSpace (cmdUNREGISTER ++ [32, 116, 32] ++ bad ++ [10]))) [] = some .badChannel) ∧
+    ((handle fixedV dec init 1 0 (idf ++ cmdREGISTER ++ [10])).fin = .fatal ∧
+     expectedErr dec r1 1 (splitSp (trimSpace (cmdREGISTER ++ [10]))) [] = some .invalid) ∧
+    ((handle fixedV dec init 1 0 (idf ++ cmdREGISTER ++ [32, 116, 10])).fin = .eof ∧
+     expectedErr dec r1 1 (splitSp (trimSpace (cmdREGISTER ++ [32, 116, 10]))) [] = none ∧
+     expectedErr dec init 1 (splitSp (trimSpace (cmdREGISTER ++ [32, 116, 10]))) [] = some .invalid) := by decide
+
+/-- (audit C28a) A second IDENTIFY, on the path the code really takes: the stream-level loop dispatches on the
+command word, and `IDENTIFY` on an identified connection is refused BEFORE any size or body byte is read
+(`execIdentify`'s first test) — whatever follows the command word on the line and in the stream. The
+connection is closed and everything it registered is gone. -/
+theorem reidentify_rejected (v : Variant) (decode : List UInt8 → Option Info) (wf : Nat → Bool) (p : Nat) (now : Int)
+    (fuel : Nat) (r : Registry) (inp : List UInt8) (acc : List (List UInt8)) (line rest : List UInt8) (args : List Name)
+    (hl : readLine inp = some (line, rest)) (hw : splitSp (trimSpace line) = cmdIDENTIFY :: args)
+    (hi : identifiedB r p = true) :
+    ioLoop v decode wf p now (fuel + 1) r inp acc =
+      ⟨disconnect (disconnect r p) p,
+       if wf acc.length then acc ++ [ascii "E_INVALID" ++ [32] ++ ascii "cannot IDENTIFY again"] else acc, .fatal⟩ := by
+  rw [ioLoop_line v decode wf p now fuel r inp acc line rest hl, hw]
+  have hne : cmdIDENTIFY ≠ cmdPING := by decide
+  simp [exec, hne, execIdentify, hi, TcpOut.isErr, replyBytes, codeName]
+
+/-- the clean-up is idempotent: after it nothing of `p` is left (so `disconnect (disconnect r p) p` above is
+`disconnect r p`) -/
+theorem disconnect_idem (r : Registry) (p : Nat) : disconnect (disconnect r p) p = disconnect r p := by
+  have h : identifiedB (disconnect r p) p = false := by
+    by_cases hi : identifiedB r p = true
+    · rw [Nsq.Proofs.RegistryWF.identifiedB_disconnect r p p hi]; simp
+    · have : disconnect r p = r := by unfold disconnect; simp [hi]
+      rw [this]; simpa using hi
+  generalize disconnect r p = r1 at h ⊢
+  unfold disconnect; simp [h]
+
+/-- non-vacuity through `handle` on bytes: IDENTIFY, REGISTER t, then `IDENTIFY junk` + 4 size bytes: three
+replies, closed, topic `t` has no producer left (the key stays, as after any disconnect) -/
+example :
+    let dec : List UInt8 → Option Info := fun _ => some ⟨[104], [110], [118], 1, 2⟩
+    let res := handle fixedV dec init 1 0 (magicV1 ++ cmdIDENTIFY ++ [10, 0, 0, 0, 1, 123] ++ cmdREGISTER ++ [32, 116, 10] ++
+      cmdIDENTIFY ++ [32, 120, 10, 0, 0, 0, 1, 123] ++ cmdPING ++ [10])
+    res.fin = .fatal ∧ res.replies.length = 3 ∧ identifiedB res.reg 1 = false ∧ getP res.reg.db (topicKey [116]) 1 = none ∧
+      qTopics res.reg = [[116]] := by decide
+
+/-- (audit C28d, C12) Which commands and routes validate names, and which do not.
+TCP: `UNREGISTER` validates exactly like `REGISTER` (`getTopicChan`): an invalid topic gets `E_BAD_TOPIC`, an
+invalid non-empty channel `E_BAD_CHANNEL`, and the connection is cleaned up.
+HTTP: `/topic/create`, `/channel/create`, `/channel/delete` validate both names (400, nothing changed).
+`/topic/delete`, `/topic/tombstone`, `/lookup`, `/channels` do NOT validate (`doDeleteTopic`,
+`doTombstoneTopicProducer`, `doLookup`, `doChannels` pass the argument straight to the DB): any byte string is
+accepted — 200 for the two POST routes and `/channels`, 200/404 for `/lookup` — including `*`, which the DB
+methods treat as a wild card. -/
+theorem name_validation_by_route (c : Conf) (r : Registry) (p : Nat) (t ch : Name) (rest : List Name) (node : Name) (now : Int)
+    (hi : identifiedB r p = true) :
+    (validName t = false → ∃ m, unregister r p (t :: rest) = (disconnect r p, .err .badTopic m)) ∧
+    (validName t = true → ch ≠ [] → validName ch = false →
+        ∃ m, unregister r p (t :: ch :: rest) = (disconnect r p, .err .badChannel m)) ∧
+    (validName t = false ∨ validName ch = false →
+        (∃ m, createChannel r ⟨false, some t, some ch, none⟩ = (r, .err 400 m)) ∧
+        (∃ m, deleteChannel r ⟨false, some t, some ch, none⟩ = (r, .err 400 m))) ∧
+    ((deleteTopic r ⟨false, some t, none, none⟩).2 = .ok ∧ (tombstone r ⟨false, some t, none, some node⟩ now).2 = .ok ∧
+      httpStep c r "GET" "/channels" ⟨false, some t, none, none⟩ now = (r, 200) ∧
+      (httpStep c r "GET" "/lookup" ⟨false, some t, none, none⟩ now = (r, 200) ∨
+       httpStep c r "GET" "/lookup" ⟨false, some t, none, none⟩ now = (r, 404))) := by
+  refine ⟨?_, ?_, ?_, ?_⟩
+  · intro hv; unfold unregister getTopicChan; simp [hi, hv]
+  · intro hv hne hvc; unfold unregister getTopicChan; simp [hi, hv, hvc, hne, chanParam]
+  · intro hv
+    unfold createChannel deleteChannel getTopicChannelArgs
+    by_cases h1 : validName t = true
+    · have h2 : validName ch = false := by cases hv with
+        | inl h => rw [h1] at h; cases h
+        | inr h => exact h
+      simp [h1, h2]
+    · simp [h1]
+  · refine ⟨rfl, rfl, rfl, ?_⟩
+    have hr : route "GET" "/lookup" = .found .lookup := by decide
+    unfold httpStep
+    simp only [hr, Bool.false_eq_true, if_false]
+    by_cases hs : t = star
+    · simp only [hs, if_true]
+      cases (findRegistrations r.db .topic star []).isEmpty <;> simp
+    · simp only [hs, if_false]
+      cases (qLookup c r t now).isNone <;> simp
+
+/-- non-vacuity: an invalid name handed to `/topic/delete` is accepted (200) and — no key has such a name — changes
+nothing; `*` is accepted and removes every topic and channel, also those a connection holds -/
+example :
+    let r0 := run init [.identify 1 ⟨[104], [110], [118], 1, 2⟩ 0, .register 1 [[116], [99]], .register 1 [[117]]]
+    deleteTopic r0 ⟨false, some [98, 97, 100, 36], none, none⟩ = (r0, .ok) ∧
+    (deleteTopic r0 ⟨false, some star, none, none⟩).2 = .ok ∧ qTopics (deleteTopic r0 ⟨false, some star, none, none⟩).1 = [] ∧
+    qTopics r0 = [[116], [117]] ∧ identifiedB (deleteTopic r0 ⟨false, some star, none, none⟩).1 1 = true := by decide
+
+/-- (audit C12) The HTTP admin API is the operator's interface: it is unauthenticated and acts on registrations of
+EVERY connection. Isolation (`tcp_isolation`) is per TCP connection only. This theorem says exactly which entries
+an ACCEPTED admin call touches, for every registry and every argument:
+* no admin call changes a peer record;
+* `/topic/create`, `/channel/create`: no producer entry changes, no key disappears, the only keys that can appear
+  are the named topic key / the named channel key and its topic key;
+* `/topic/delete?topic=t`: exactly the keys in `delTouched t` go (with every producer entry under them, of
+  whatever connection); everything else is as before — for `t = "*"` that is every topic and channel;
+* `/channel/delete`: exactly the named channel key goes;
+* `/topic/tombstone`: no key appears or disappears, no producer entry appears or disappears; the only change is
+  the tombstone flag/time of entries in `tombTouched` (producers at `node` under that topic). -/
+theorem admin_call_touches_only (r : Registry) (a : HttpArgs) (now : Int) :
+    ((createTopic r a).1.peers = r.peers ∧ (deleteTopic r a).1.peers = r.peers ∧ (createChannel r a).1.peers = r.peers ∧
+      (deleteChannel r a).1.peers = r.peers ∧ (tombstone r a now).1.peers = r.peers) ∧
+    (∀ k q, getP (createTopic r a).1.db k q = getP r.db k q ∧ getP (createChannel r a).1.db k q = getP r.db k q) ∧
+    (∀ k, (has r.db k = true → has (createTopic r a).1.db k = true ∧ has (createChannel r a).1.db k = true) ∧
+      (has (createTopic r a).1.db k = true → has r.db k = true ∨ ∃ t, a.topic = some t ∧ k = topicKey t) ∧
+      (has (createChannel r a).1.db k = true →
+        has r.db k = true ∨ ∃ t c, a.topic = some t ∧ a.channel = some c ∧ (k = topicKey t ∨ k = chanKey t c))) ∧
+    (∀ t, (deleteTopic r a).2 = .ok → a.topic = some t → ∀ k,
+      (has (deleteTopic r a).1.db k = true ↔ has r.db k = true ∧ delTouched t k = false) ∧
+      ∀ q, getP (deleteTopic r a).1.db k q = if delTouched t k then none else getP r.db k q) ∧
+    (∀ t c, (deleteChannel r a).2 = .ok → a.topic = some t → a.channel = some c → ∀ k,
+      has (deleteChannel r a).1.db k = (decide (k ≠ chanKey t c) && has r.db k) ∧
+      ∀ q, getP (deleteChannel r a).1.db k q = if k = chanKey t c then none else getP r.db k q) ∧
+    (∀ t node, (tombstone r a now).2 = .ok → a.topic = some t → a.node = some node → ∀ k,
+      has (tombstone r a now).1.db k = has r.db k ∧
+      ∀ q, getP (tombstone r a now).1.db k q = getP r.db k q ∨
+        (tombTouched r t node k q = true ∧ getP (tombstone r a now).1.db k q = (getP r.db k q).map (fun _ => ⟨true, now⟩))) := by
+  refine ⟨admin_peers r a now, fun k q => create_getP r a k q, fun k => create_has r a k, ?_, ?_, ?_⟩
+  · intro t hok ht k; exact deleteTopic_touches r a t hok ht k
+  · intro t c hok ht hc k; exact deleteChannel_touches r a t c hok ht hc k
+  · intro t node hok ht hn k; exact tombstone_touches r a now t node hok ht hn k
+
+/-- (audit C28g) "A connection can make nsqlookupd hold only a bounded number of bytes before it is answered or
+closed" — the statement that would be needed for the resource side of "no byte sequence can stop it answering
+others". -/
+def line_buffer_bounded_stmt : Prop := ∃ N, ∀ inp : List UInt8, lineBuffered inp ≤ N
+
+/-- FALSE for the code as it is: `reader.ReadString('\n')` (lookup_protocol_v1.go:41) has no maximum line length;
+`N + 1` bytes without a newline are all buffered. Open known finding `unbounded-line-read` (replayed on every run:
+harness `TestVerifE4Unbounded`; the HTTP side, `io.ReadAll(req.Body)` in internal/http_api/req_params.go:21, is
+the sibling finding `unbounded-http-body-read`). -/
+theorem line_buffer_bounded_false : ¬ line_buffer_bounded_stmt := by
+  intro ⟨N, h⟩
+  have hr : ∀ n, readLine (List.replicate n (65 : UInt8)) = none := by
+    intro n
+    induction n with
+    | zero => rfl
+    | succ n ih => simp [List.replicate_succ, readLine, ih]
+  have := h (List.replicate (N + 1) 65)
+  simp [lineBuffered, hr] at this
+  omega
+
+/-- What does hold (`_partial`): the daemon never buffers more than the connection sent (growth is linear with
+factor one — what the replay observes), and a stream whose first line ends within `L` bytes buffers at most `L`. -/
+theorem line_buffer_partial (inp : List UInt8) :
+    lineBuffered inp ≤ inp.length ∧ ∀ line rest, readLine inp = some (line, rest) → lineBuffered inp = line.length := by
+  have hlen : ∀ (l : List UInt8) line rest, readLine l = some (line, rest) → line.length ≤ l.length := by
+    intro l
+    induction l with
+    | nil => intro line rest h; simp [readLine] at h
+    | cons c t ih =>
+      intro line rest h
+      unfold readLine at h
+      by_cases hc : c = 10
+      · simp only [hc, if_true, Option.some.injEq, Prod.mk.injEq] at h
+        rw [← h.1]; simp
+      · simp only [hc, if_false] at h
+        cases hr : readLine t with
+        | none => simp [hr] at h
+        | some lr =>
+          simp only [hr, Option.some.injEq, Prod.mk.injEq] at h
+          have := ih lr.1 lr.2 (by rw [hr])
+          rw [← h.1]; simp; omega
+  constructor
+  · unfold lineBuffered
+    cases hr : readLine inp with
+    | none => simp
+    | some lr => exact hlen inp lr.1 lr.2 (by rw [hr])
+  · intro line rest h
+    simp [lineBuffered, h]
+
+example : lineBuffered (List.replicate 100 65) = 100 ∧ lineBuffered (cmdPING ++ [10] ++ List.replicate 100 65) = 5 := by decide
 
 end Nsq.Props.C15
